@@ -7,6 +7,9 @@ struct EncCase
 {
   bytes P, key, seed;
   int cmode = 1, hmode = 0, T = 4, chunk = 64, outbuf = 0, refill = 0;
+  int fsz0 = 0;    // the caller does not know the size of its input and passes 0 to execute_* (what the CLI does for a pipe)
+  int pipe_in = 0; // the input stream cannot seek
+  int inbuf = 0;   // 1: the input stream is unbuffered
   wapi::SchedSpec s1, s2; // schedules of the first / second operation
   uint64_t plen = 0;
 };
@@ -28,6 +31,9 @@ inline EncCase enc_from(const Case &c)
   e.chunk = (int)c.geti("chunk", 64);
   e.outbuf = (int)c.geti("outbuf", 0);
   e.refill = (int)c.geti("refill", 0);
+  e.fsz0 = (int)c.geti("fsz0", 0);
+  e.pipe_in = (int)c.geti("pipe_in", 0);
+  e.inbuf = (int)c.geti("inbuf", 0);
   e.s1 = wapi::SchedSpec::parse(c.get("sched", "k0"));
   e.s2 = wapi::SchedSpec::parse(c.get("sched2", "k0"));
   return e;
@@ -51,6 +57,10 @@ inline wapi::PipeCfg pcfg(const EncCase &e, const wapi::SchedSpec &s)
   pc.sched = s;
   pc.outbuf = e.outbuf;
   pc.refill = e.refill;
+  if (e.fsz0)
+    pc.fsize_hint = 0;
+  pc.in_noseek = e.pipe_in != 0;
+  pc.inbuf = e.inbuf;
   return pc;
 }
 
@@ -199,6 +209,10 @@ inline void gen_enc(Case &c, const GenOpts &o = GenOpts())
       rf = wapi::refill_capacity();
     c.seti("refill", rf);
   }
+  // one case in eight passes 0 as the size of the input (the size only feeds the progress display; a caller that
+  // reads from a pipe does not know it)
+  if (g::coin(12))
+    c.seti("fsz0", 1);
   size_t blocks = (size_t)(len / 16 + 1);
   if (o.schedules)
   {
